@@ -404,17 +404,32 @@ def replay_C19(w, clause):
         return {"reproduced": not ok, "sig": {"kind": "finite", "which": w["finite"]}, "detail": f"{w['class']}: {w['finite']} = {ok}"}
     a, b = shapes.from_jsonable(w["a"]), shapes.from_jsonable(w["b"])
     wr, rd = entity_writer(cls), entity_reader(cls)
-    frame = c19.Frame(wr, rd)
     k = w.get("fault_k")
+    kind = w["call1"]
+    cuts = [None]
+    if kind == "read_truncated":
+        n = len(_encode(cls, a))
+        cuts = [w["cut"]] if w.get("cut") is not None else list(range(n - 1, -1, -1))[:400]
+    verdict = None
+    for cut in cuts:
+        verdict = _c19_history(cls, a, b, kind, k, cut, wr, rd, c19, kref, w)
+        if verdict["reproduced"]:
+            return verdict
+    return verdict
+
+
+def _c19_history(cls, a, b, kind, k, cut, wr, rd, c19, kref, w):
+    frame = c19.Frame(wr, rd)
 
     class FaultySink:
-        def __init__(self, k):
+        def __init__(self, k, where):
             self.n = 0
             self.k = k
+            self.where = where
             self.buf = bytearray()
 
         def write(self, data):
-            frame.check("during call 1 (write)")
+            frame.check(self.where)
             if self.k is not None and self.n == self.k:
                 self.n += 1
                 raise OSError("injected")
@@ -422,45 +437,44 @@ def replay_C19(w, clause):
             self.buf += bytes(data)
 
     class FaultySource:
-        def __init__(self, data, k, limit=None):
+        def __init__(self, data, k, limit, where):
             self.b = io.BytesIO(data if limit is None else data[:limit])
             self.n = 0
             self.k = k
+            self.where = where
 
         def read(self, n=-1):
-            frame.check("during call 1 (read)")
+            frame.check(self.where)
             if self.k is not None and self.n == self.k:
                 self.n += 1
                 raise OSError("injected")
             self.n += 1
             return self.b.read(n)
 
-    kind = w["call1"]
     try:
         if kind.startswith("write"):
-            wr(FaultySink(k if kind == "write_fault" else None), a)
+            wr(FaultySink(k if kind == "write_fault" else None, "during call 1 (write)"), a)
         elif kind.startswith("read"):
             data = _encode(cls, a)
-            lim = max(0, len(data) // 2) if kind == "read_truncated" else None
-            rd(FaultySource(data, k if kind == "read_fault" else None, lim))
+            rd(FaultySource(data, k if kind == "read_fault" else None, cut, "during call 1 (read)"))
     except Exception:
         pass
     frame.check("after call 1")
-    buf = io.BytesIO()
+    sink2 = FaultySink(None, "during call 2 (write)")
     try:
-        wr(buf, b)
+        wr(sink2, b)
     except Exception as e:
         return {"reproduced": True, "sig": {"kind": "call2_writer_raises", **_exc_sig(e)}, "detail": f"after {kind}: {type(e).__name__}: {e}"}
-    got = buf.getvalue()
+    got = bytes(sink2.buf)
     ref = bytes(kref.encode(b))
     if got != ref:
         return {"reproduced": True, "sig": {"kind": "call2_bytes_differ", "after": kind}, "detail": f"{w['class']}: after call 1 ({kind}) the cached writer encodes b differently from the reference"}
     try:
-        out = rd(io.BytesIO(got))
+        out = rd(FaultySource(got, None, None, "during call 2 (read)"))
     except Exception as e:
         return {"reproduced": True, "sig": {"kind": "call2_reader_raises", **_exc_sig(e)}, "detail": f"after {kind}: {type(e).__name__}: {e}"}
     if out != b:
-        return {"reproduced": True, "sig": {"kind": "call2_value_differs", "after": kind}, "detail": f"{w['class']}: after call 1 ({kind}) the cached reader decodes b's bytes to a different value"}
+        return {"reproduced": True, "sig": {"kind": "call2_value_differs", "after": kind}, "detail": f"{w['class']}: after call 1 ({kind}, cut={cut}, fault={k}) the cached reader decodes b's bytes to a different value"}
     frame.check("after call 2")
     if frame.broken:
         return {"reproduced": True, "sig": {"kind": "shared_state_written", "when": frame.broken}, "detail": f"{w['class']}: state reachable from the cached reader/writer changed {frame.broken}"}
@@ -691,7 +705,8 @@ def replay_C18(w, clause):
 
 
 def replay_C16(w, clause):
-    sys.path.insert(0, "/repo") if "/repo" not in sys.path else None
+    _REPO = __import__("os").environ.get("KIO_REPO", "/repo")
+    sys.path.insert(0, _REPO) if _REPO not in sys.path else None
     from codegen.case import to_snake_case
 
     if "snake_builtin" in w:
